@@ -6,6 +6,7 @@
    MAX_USERS, USEREC_RAW_SZ and the record layout come from Gen/ (regenerated from the source). *)
 From Coq Require Import String.
 From Verif Require Import Base.Common Base.Layout Gen.Consts_default Gen.Layout_default.
+From Verif Require Gen.Consts_docker.
 Local Close Scope string_scope.
 Local Open Scope Z_scope.
 
@@ -171,6 +172,64 @@ Fixpoint run (s : st) (h : list op) : st * list out :=
   | o :: r => let '(s1, x) := step s o in let '(s2, xs) := run s1 r in (s2, x :: xs)
   end.
 
+(* ---------------------------------------------------------------- refused writes, disagreement left behind *)
+(* The same calls while .PASSWDS refuses the write (the file is away: os.OpenFile fails; or the device is full: the
+   write fails). passwdUpdateMoney / PasswdUpdate / PasswdUpdate* return the error after their uid check and write
+   nothing; SetUMoney has ALREADY stored the balance into the segment when it learns about it. *)
+Definition ERR_IO : Z := 99.
+
+Definition refused_set (s : st) (uid money : Z) : st * out :=
+  if (uid <=? 0) || (MAXU <? uid) then (s, OErr (-1) ERR_INVALID_UID)
+  else
+  let i := wrap32 (uid - 1) in
+  if negb (in_range i) then (s, OPanic)
+  else
+    let s1 := mkst (upd (shm s) i money) (file s) in
+    if (uid <? 1) || (MAXU <? uid) then (s1, OErr money ERR_INVALID_UID) else (s1, OErr money ERR_IO).
+
+Definition refused_de (s : st) (uid money : Z) : st * out :=
+  if (uid <=? 0) || (MAXU <? uid) then (s, OErr (-1) ERR_INVALID_UID)
+  else match money_of s uid with
+       | Ok cur =>
+           if (money <? 0) && (cur <? - money)
+           then refused_set s uid 0
+           else refused_set s uid (wrap32 (cur + money))
+       | _ => (s, OPanic)
+       end.
+
+Definition refused_step (s : st) (o : op) : st * out :=
+  match o with
+  | OpSet u m => refused_set s u m
+  | OpDe u m => refused_de s u m
+  | OpGet u => step s (OpGet u)
+  | OpRewrite u rec =>          (* user.Money = MoneyOf(uid) happens before the write is attempted *)
+      if negb (uid_is_valid u) then (s, OErr (rec_money rec) ERR_INVALID_UID)
+      else match money_of s u with Ok m => (s, OErr m ERR_IO) | _ => (s, OPanic) end
+  | OpPart u _ _ => if negb (uid_is_valid u) then (s, OErr 0 ERR_INVALID_UID) else (s, OErr 0 ERR_IO)
+  end.
+
+(* XOk: the call as above. XRefused: the call while the file refuses the write. XPlantShm u m: the segment's balance
+   of slot u becomes m with no file write (a process that died between SetUMoney's store and its write; SysV memory
+   survives it). XPlantFile u m: the Money field of record u becomes m behind the segment's back. *)
+Inductive xop : Type := XOk (o : op) | XRefused (o : op) | XPlantShm (u m : Z) | XPlantFile (u m : Z).
+
+Definition xstep (s : st) (x : xop) : st * out :=
+  match x with
+  | XOk o => step s o
+  | XRefused o => refused_step s o
+  | XPlantShm u m => (mkst (upd (shm s) (u - 1) m) (file s), OVal m)
+  | XPlantFile u m => (mkst (shm s) (write_at (file s) (money_pos u) (enc32 m)), OVal m)
+  end.
+
+Fixpoint xrun (s : st) (h : list xop) : st * list out :=
+  match h with
+  | [] => (s, [])
+  | x :: r => let '(s1, o) := xstep s x in let '(s2, os) := xrun s1 r in (s2, o :: os)
+  end.
+
+Definition xtarget (x : xop) : Z :=
+  match x with XOk o | XRefused o => (match o with OpSet u _ | OpDe u _ | OpGet u | OpRewrite u _ | OpPart u _ _ => u end) | XPlantShm u _ | XPlantFile u _ => u end.
+
 (* ---------------------------------------------------------------- wire *)
 (* observation after each step: all MAX_USERS balances of the segment, the file length, and every
    byte of the file that differs from the initial file as (offset, byte) pairs *)
@@ -254,6 +313,23 @@ Definition parse_op (pd : pend) (s : st) (g : list Z) : option (op * pend * bool
   | _ => None
   end.
 
+Definition parse_xop (pd : pend) (s : st) (g : list Z) : option (xop * pend * bool) :=
+  match g with
+  | 13 :: mode :: k :: g' =>                 (* the operation k ... while .PASSWDS refuses the write (1: away, 2: /dev/full) *)
+      if ((mode =? 1) || (mode =? 2)) && ((k =? 1) || (k =? 2) || (k =? 5) || (k =? 10) || (k =? 11)) then
+        match parse_op pd s (k :: g') with
+        | Some (o, pd1, mute) => Some (XRefused o, pd1, mute)
+        | None => None
+        end
+      else None
+  | [14; u; m] => if uid_is_valid u then Some (XPlantShm u m, pd, false) else None
+  | [15; u; m] => if uid_is_valid u then Some (XPlantFile u m, pd, false) else None
+  | _ => match parse_op pd s g with
+         | Some (o, pd1, mute) => Some (XOk o, pd1, mute)
+         | None => None
+         end
+  end.
+
 Definition target (o : op) : Z :=
   match o with OpSet u _ | OpDe u _ | OpGet u | OpRewrite u _ | OpPart u _ _ => u end.
 
@@ -264,19 +340,129 @@ Fixpoint run_wire (init : list Z) (pd : pend) (s : st) (gs : list (list Z)) : op
   match gs with
   | [] => Some []
   | g :: r =>
-      match parse_op pd s g with
+      match parse_xop pd s g with
       | None => None
       | Some (o, pd1, mute) =>
-          let '(s1, x) := step s o in
+          let '(s1, x) := xstep s o in
           match run_wire init pd1 s1 r with
           | Some t =>
-              let u := target o in
+              let u := xtarget o in
               Some ((if mute then out_wire_mute x else out_wire x)
                     ++ (if in_range (u - 1) then money_field (file s1) u else 0) :: observe init s1 ++ t)
           | None => None
           end
       end
   end.
+
+(* ---------------------------------------------------------------- any table size *)
+(* The same Go functions on a table of N slots (N = MAX_USERS of whichever build: 50 by default, 2 000 000 with
+   -tags docker), with .PASSWDS abstracted to what the property speaks about: the Money field of each record
+   (gfld u = what PasswdQuery(u).Money decodes). Bytes, offsets and the codec are the business of the model above
+   (they do not depend on N: the record layout of both builds is the same, see C01). w = the file accepts the write. *)
+Record gst : Type := mkg { gshm : Z -> Z; gfld : Z -> Z }.
+Definition g_in_range (N i : Z) : bool := (0 <=? i) && (i <? N).
+Definition g_valid (N u : Z) : bool := (1 <=? u) && (u <=? N).
+Definition g_money_of (N : Z) (s : gst) (uid : Z) : res Z :=
+  let i := wrap32 (uid - 1) in if g_in_range N i then Ok (gshm s i) else Crash.
+Definition g_set (N : Z) (w : bool) (s : gst) (uid money : Z) : gst * out :=
+  if (uid <=? 0) || (N <? uid) then (s, OErr (-1) ERR_INVALID_UID)
+  else
+  let i := wrap32 (uid - 1) in
+  if negb (g_in_range N i) then (s, OPanic)
+  else
+    let s1 := mkg (upd (gshm s) i money) (gfld s) in
+    if (uid <? 1) || (N <? uid) then (s1, OErr money ERR_INVALID_UID)
+    else if w then
+      let s2 := mkg (gshm s1) (upd (gfld s1) uid money) in
+      match g_money_of N s2 uid with Ok v => (s2, OVal v) | _ => (s2, OPanic) end
+    else (s1, OErr money ERR_IO).
+Definition g_de (N : Z) (w : bool) (s : gst) (uid money : Z) : gst * out :=
+  if (uid <=? 0) || (N <? uid) then (s, OErr (-1) ERR_INVALID_UID)
+  else match g_money_of N s uid with
+       | Ok cur =>
+           if (money <? 0) && (cur <? - money)
+           then g_set N w s uid 0
+           else g_set N w s uid (wrap32 (cur + money))
+       | _ => (s, OPanic)
+       end.
+(* passwdSyncUpdate: recm = the Money the caller's record carries *)
+Definition g_rewrite (N : Z) (w : bool) (s : gst) (uid recm : Z) : gst * out :=
+  if negb (g_valid N uid) then (s, OErr recm ERR_INVALID_UID)
+  else match g_money_of N s uid with
+       | Ok m => if w then (mkg (gshm s) (upd (gfld s) uid m), OVal m) else (s, OErr m ERR_IO)
+       | _ => (s, OPanic)
+       end.
+Definition g_step (N : Z) (s : gst) (x : xop) : gst * out :=
+  match x with
+  | XOk (OpSet u m) => g_set N true s u m
+  | XRefused (OpSet u m) => g_set N false s u m
+  | XOk (OpDe u m) => g_de N true s u m
+  | XRefused (OpDe u m) => g_de N false s u m
+  | XOk (OpGet u) | XRefused (OpGet u) => (s, match g_money_of N s u with Ok v => OVal v | _ => OPanic end)
+  | XOk (OpRewrite u rec) => g_rewrite N true s u (rec_money rec)
+  | XRefused (OpRewrite u rec) => g_rewrite N false s u (rec_money rec)
+  | XOk (OpPart u _ _) => if negb (g_valid N u) then (s, OErr 0 ERR_INVALID_UID) else (s, OVal 0)
+  | XRefused (OpPart u _ _) => if negb (g_valid N u) then (s, OErr 0 ERR_INVALID_UID) else (s, OErr 0 ERR_IO)
+  | XPlantShm u m => (mkg (upd (gshm s) (u - 1) m) (gfld s), OVal m)
+  | XPlantFile u m => (mkg (gshm s) (upd (gfld s) u m), OVal m)
+  end.
+Fixpoint g_run (N : Z) (s : gst) (h : list xop) : gst * list out :=
+  match h with
+  | [] => (s, [])
+  | x :: r => let '(s1, o) := g_step N s x in let '(s2, os) := g_run N s1 r in (s2, o :: os)
+  end.
+
+(* the flag: the Go entry point has no value to print (see parse_op). pwcuStart hands out the record with the cached balance
+   (a read), pwcuEnd / pwcuIncNumPost end in passwdSyncUpdate, whose result does not depend on the Money of the caller's record *)
+Definition g_parse_plain (g : list Z) : option (xop * bool) :=
+  match g with
+  | [1; u; m] => Some (XOk (OpSet u m), false)
+  | [2; u; m] => Some (XOk (OpDe u m), false)
+  | [3; u] => Some (XOk (OpGet u), false)
+  | 5 :: u :: rec => if is_rec rec then Some (XOk (OpRewrite u (canon rec)), false) else None
+  | [7; u] => Some (XOk (OpGet u), false)
+  | [8; u; _] => Some (XOk (OpRewrite u []), false)
+  | 10 :: u :: bs => if lenZ bs =? PASSLEN then Some (XOk (OpPart u FPasswd bs), false) else None
+  | 11 :: u :: bs => if lenZ bs =? EMAILSZ then Some (XOk (OpPart u FEmail bs), false) else None
+  | [12; u] => Some (XOk (OpRewrite u []), true)
+  | _ => None
+  end.
+Definition g_parse (N : Z) (g : list Z) : option (xop * bool) :=
+  match g with
+  | 13 :: mode :: k :: g' =>
+      if ((mode =? 1) || (mode =? 2)) && ((k =? 1) || (k =? 2) || (k =? 5) || (k =? 10) || (k =? 11)) then
+        match g_parse_plain (k :: g') with Some (XOk o, mute) => Some (XRefused o, mute) | _ => None end
+      else None
+  | [14; u; m] => if g_valid N u then Some (XPlantShm u m, false) else None
+  | [15; u; m] => if g_valid N u then Some (XPlantFile u m, false) else None
+  | _ => g_parse_plain g
+  end.
+
+(* observation: the segment's balance and the Money field of the record of every watched slot *)
+Definition g_observe (s : gst) (watch : list Z) : list Z := flat_map (fun w => [gshm s (w - 1); gfld s w]) watch.
+Fixpoint g_wire (N : Z) (watch : list Z) (s : gst) (gs : list (list Z)) : option (list Z) :=
+  match gs with
+  | [] => Some []
+  | g :: r =>
+      match g_parse N g with
+      | None => None
+      | Some (x, mute) =>
+          let '(s1, o) := g_step N s x in
+          match g_wire N watch s1 r with
+          | Some t => let u := xtarget x in
+                      Some ((if mute then out_wire_mute o else out_wire o)
+                            ++ (if g_valid N u then gfld s1 u else 0) :: g_observe s1 watch ++ t)
+          | None => None
+          end
+      end
+  end.
+(* the table after a cold load of a file whose record u carries Money m for every (u, m) listed and 0 elsewhere *)
+Fixpoint g_planted (ps : list Z) : Z -> Z :=
+  match ps with
+  | u :: m :: r => let f := g_planted r in fun x => if x =? u then m else f x
+  | _ => fun _ => 0
+  end.
+Definition g_size (cfg : Z) : Z := if cfg =? 1 then Gen.Consts_docker.ptttype.MAX_USERS else MAXU.
 
 (* case: [1] | bytes of .PASSWDS | op | op | ...   (the segment is cold-loaded from the file first) *)
 Definition run_case (args : list (list Z)) : list Z :=
@@ -287,7 +473,16 @@ Definition run_case (args : list (list Z)) : list Z :=
       | Some t => ST_OK :: observe f s ++ t
       | None => [ST_BADCASE]
       end
+  | [4; cfg] :: watch :: ps :: gs =>       (* histories on the table of the build cfg (0 default, 1 docker) *)
+      let N := g_size cfg in
+      let f := g_planted ps in
+      let s := mkg (fun i => f (i + 1)) f in
+      match g_wire N watch s gs with
+      | Some t => ST_OK :: g_observe s watch ++ t
+      | None => [ST_BADCASE]
+      end
   | [[2]] => [ST_OK; MAXU; RECSZ; MONEY_OFF]
+  | [[2; cfg]] => [ST_OK; g_size cfg; RECSZ; MONEY_OFF]
   | [[3]] => let b := bool_offsets fields_UserecRaw 0 in
              [ST_OK; USERLEVEL_OFF; NUMPOSTS_OFF; PASSWD_OFF; PASSLEN; EMAIL_OFF; EMAILSZ; lenZ b] ++ b
   | _ => [ST_BADCASE]
@@ -345,3 +540,67 @@ Definition footprint (o : op) : nat * nat :=
 Definition Agree (s : st) (b : Z -> Z) : Prop :=
   length (file s) = Z.to_nat (MAXU * RECSZ) /\
   forall u, valid u -> shm s (u - 1) = b u /\ money_field (file s) u = b u.
+
+(* ---------------------------------------------------------------- specification with refused writes *)
+(* Arithmetic follows the segment (MoneyOf is what every reader is answered with); a set of "dirty" slots records where
+   the file may have been left behind: a refused set / credit / debit and a planted disagreement make the slot dirty,
+   every successful set / credit / debit and every whole-record write-back makes it clean again. *)
+Definition bupd (d : Z -> bool) (k : Z) (v : bool) : Z -> bool := fun x => if x =? k then v else d x.
+
+Definition de_value (b : Z -> Z) (u m : Z) : Z := if (m <? 0) && (b u <? - m) then 0 else b u + m.
+
+Definition xspec_step (b : Z -> Z) (d : Z -> bool) (x : xop) : (Z -> Z) * (Z -> bool) * out :=
+  match x with
+  | XOk o =>
+      (fst (spec_step b o),
+       match o with OpSet u _ | OpDe u _ | OpRewrite u _ => bupd d u false | _ => d end,
+       OVal (snd (spec_step b o)))
+  | XRefused (OpSet u m) => (upd b u m, bupd d u true, OErr m ERR_IO)
+  | XRefused (OpDe u m) => (upd b u (de_value b u m), bupd d u true, OErr (de_value b u m) ERR_IO)
+  | XRefused (OpGet u) => (b, d, OVal (b u))
+  | XRefused (OpRewrite u _) => (b, d, OErr (b u) ERR_IO)
+  | XRefused (OpPart _ _ _) => (b, d, OErr 0 ERR_IO)
+  | XPlantShm u m => (upd b u m, bupd d u true, OVal m)
+  | XPlantFile u m => (b, bupd d u true, OVal m)
+  end.
+
+Fixpoint xspec_run (b : Z -> Z) (d : Z -> bool) (h : list xop) : (Z -> Z) * (Z -> bool) * list out :=
+  match h with
+  | [] => (b, d, [])
+  | x :: r => let '(b1, d1, o) := xspec_step b d x in let '(b2, d2, os) := xspec_run b1 d1 r in (b2, d2, o :: os)
+  end.
+
+Definition xop_ok (b : Z -> Z) (x : xop) : Prop :=
+  match x with
+  | XOk o | XRefused o => op_ok b o
+  | XPlantShm u m | XPlantFile u m => valid u /\ int32 m
+  end.
+Fixpoint xhist_ok (b : Z -> Z) (d : Z -> bool) (h : list xop) : Prop :=
+  match h with [] => True | x :: r => xop_ok b x /\ xhist_ok (fst (fst (xspec_step b d x))) (snd (fst (xspec_step b d x))) r end.
+
+(* the segment and arithmetic agree on every valid slot (balances are int32s); the Money field of the record agrees
+   too on every slot that is not dirty; .PASSWDS has MAX_USERS records *)
+Definition AgreeExcept (s : st) (b : Z -> Z) (d : Z -> bool) : Prop :=
+  length (file s) = Z.to_nat (MAXU * RECSZ) /\
+  forall u, valid u -> shm s (u - 1) = b u /\ int32 (b u) /\ (d u = false -> money_field (file s) u = b u).
+
+(* ---------------------------------------------------------------- specification for any table size *)
+Definition gvalid (N u : Z) : Prop := 1 <= u <= N.
+Definition g_op_ok (N : Z) (b : Z -> Z) (x : xop) : Prop :=
+  match x with
+  | XOk o | XRefused o =>
+      match o with
+      | OpSet u m => gvalid N u /\ int32 m
+      | OpDe u m => gvalid N u /\ int32 m /\ ((m < 0 /\ b u < - m) \/ int32 (b u + m))
+      | OpGet u | OpRewrite u _ | OpPart u _ _ => gvalid N u
+      end
+  | XPlantShm u m | XPlantFile u m => gvalid N u /\ int32 m
+  end.
+Fixpoint g_hist_ok (N : Z) (b : Z -> Z) (d : Z -> bool) (h : list xop) : Prop :=
+  match h with
+  | [] => True
+  | x :: r => g_op_ok N b x /\ g_hist_ok N (fst (fst (xspec_step b d x))) (snd (fst (xspec_step b d x))) r
+  end.
+(* on every slot 1..N the segment equals arithmetic, and so does the Money field of the record unless the slot is dirty *)
+Definition GAgree (N : Z) (s : gst) (b : Z -> Z) (d : Z -> bool) : Prop :=
+  forall u, gvalid N u -> gshm s (u - 1) = b u /\ (d u = false -> gfld s u = b u).
